@@ -22,6 +22,8 @@ def specs(tier):
         J('m-steady3:M1H1E1', 'steady', dict(n=3, dyn=True), dict(M=1, H=1, E=1), dict(k=0), extra_monitors=api),
         J('m-deposed3:H2R2', 'm_deposed', dict(n=3, dyn=True), dict(H=2, R=2), extra_monitors=api),
         J('m-deposed3-ahead:H3R1', 'm_deposed', dict(n=3, dyn=True), dict(H=3, R=1), dict(unnoticed=True), extra_monitors=api),
+        J('m-deposed3-addexisting:H2R2', 'm_deposed', dict(n=3, dyn=True), dict(H=2, R=2), dict(op='add'), extra_monitors=api),
+        J('m-readd-lateack3+1-b24:H1', 'm_readd_lateack', dict(n=3, dyn=True, spare=1, batch_bytes=24), dict(H=1), extra_monitors=api),
         J('m-steady2-admin:M2H1', 'steady', dict(n=2, dyn=True, spare=1), dict(M=2, H=1), dict(k=0)),
         J('m-fresh3:E1M1', 'fresh', dict(n=3, dyn=True), dict(E=1, M=1), extra_monitors=api),
         J('m-journal-steady2+1:M1K1P1H1', 'steady', dict(n=2, dyn=True, spare=1, journal='file+dump'), dict(M=1, K=1, P=1, H=1), dict(k=0),
@@ -30,6 +32,8 @@ def specs(tier):
     ]
     if not q:
         js += [
+    J('m-steady3-addexisting:M1H1E1', 'steady', dict(n=3, dyn=True), dict(M=1, H=1, E=1), dict(k=0),
+          extra_monitors=(('mc.monitors_c10', 'MembershipMonitor', dict(via=('api',), add_existing=True)),)),
             J('m-steady3+1:M2H2R3', 'steady', dict(n=3, dyn=True, spare=1), dict(M=2, H=2, R=3), dict(k=0), extra_monitors=api),
             J('m-steady3:M2H2E1', 'steady', dict(n=3, dyn=True), dict(M=2, H=2, E=1), dict(k=0), extra_monitors=api),
             J('m-steady4:M2H2', 'steady', dict(n=4, dyn=True), dict(M=2, H=2), dict(k=0), extra_monitors=api),
